@@ -55,12 +55,18 @@ impl Ctx {
                     .env("DEXSIM_CLOCK_STEP_NS", w.step_ns.to_string());
             }
         }
-        let mut child = cmd
-            .current_dir(&self.tmp)
+        cmd.current_dir(&self.tmp)
             .stdout(std::process::Stdio::null())
-            .stderr(std::process::Stdio::null())
-            .spawn()
-            .ok()?;
+            .stderr(std::process::Stdio::null());
+        if plan.clock.is_some() {
+            // the sessions that run under the clock seam also have stdout / stderr that accept no byte
+            if let Ok(full) = std::fs::OpenOptions::new().write(true).open("/dev/full") {
+                if let Ok(full2) = full.try_clone() {
+                    cmd.stdout(full).stderr(full2);
+                }
+            }
+        }
+        let mut child = cmd.spawn().ok()?;
         let _ = child.wait();
         let text = std::fs::read_to_string(&fout).ok();
         let _ = std::fs::remove_file(&fin);
